@@ -784,7 +784,8 @@ def check_default_membership(c, all_ran, rng):
 def finish(c):
     return {'proj': c.proj, 'cfg': c.cfg, 'violations': c.violations,
             'trace': c.trace, 'stats': c.stats,
-            'n_steps': len(c.graph.steps)}
+            'n_steps': len(c.graph.steps),
+            'schedules': sorted(getattr(c.sim, 'schedules', []))}
 
 
 PARAMS = {
@@ -843,6 +844,7 @@ def summarise(case):
                    'steps': case['n_steps'],
                    'script': proj.script_text('build.bfg').split('\n'),
                    'history': [t[:3] for t in case['trace']][:40]},
+        'sets': {'schedules': case.get('schedules', [])},
         'replay': rep,
         'wall': case.get('wall'),
     }
